@@ -923,8 +923,8 @@ def plan_c13(tier, seed):
         metas.append(G(h, configs))
 
     if tier == Q:
-        combos = [("user", "name", L, 62, 4) for L in (64, 65, 67, 70)] + [("user", "display_name", 66, 62, 4), ("rp", "name", 65, 62, 4),
-                                                                           ("user", "name", 0, 0, 0), ("user", "name", 63, 59, 4)]
+        combos = [("user", "name", L, 62, 4) for L in (64, 67)] + [("user", "name", L, 60, 6) for L in (65, 70)]
+        combos += [("user", "display_name", 66, 61, 4), ("rp", "name", 65, 61, 5), ("user", "name", 0, 0, 0), ("user", "name", 63, 59, 4)]
     else:
         combos = [("user", "name", L, 60, 8) for L in (60, 61, 62, 63, 64, 65, 66, 67, 68, 69, 70, 71, 72, 100, 300)]
         combos += [("user", "display_name", L, 60, 8) for L in (64, 65, 68)] + [("rp", "name", L, 60, 8) for L in (64, 65, 68, 100)]
@@ -972,7 +972,8 @@ def plan_c14(tier, seed):
     for n in range(1, maxlen + 1):
         lists += list(itertools.product(alpha, repeat=n))
     extra = [("unkalg",) * 10 + ("eddsa", "es256"), ("unktype",) * 11 + ("es256", "eddsa"), ("es256",) * 20,
-             ("es256", "es256", "eddsa"), ("unkalg", "eddsa", "unktype", "es256", "eddsa")]
+             ("es256", "es256", "eddsa"), ("unkalg", "eddsa", "unktype", "es256", "eddsa"), ("es256", "eddsa", "es256", "unkalg"),
+             ("eddsa", "eddsa", "eddsa", "unktype", "es256")]
     unk_classes = [(1, 1), (2, 1), (4, 1), (1, 0), (2, 0), (4, 0)]
     for i, kinds in enumerate(lists + extra):
         cls = unk_classes[(i + seed) % len(unk_classes)]
@@ -1044,7 +1045,7 @@ def unknown_values(h):
            "several unknown members at once (thorough tier has one two-member instance per host); unknown values larger than 300 bytes",
 })
 def plan_c06(tier, seed):
-    from .gen_fault import nested_accept, accept_harness, insert_entry
+    from .gen_fault import nested_accept, accept_harness, insert_entry, get
     from .hb import Harness
     from .types import Variation
     from . import spec, cbor as C
@@ -1066,27 +1067,33 @@ def plan_c06(tier, seed):
             combos = [(pos, (idx + 7 * pos + seed) % nvals) for pos in positions]
         else:
             combos = [(pos, vi) for pos in positions for vi in range(nvals) if (vi + pos) % len(positions) == 0 or vi < 6]
+        REAL = {"transports": "transports", "credBlob": "credBlob", "minPinLength": "minPinLength", "credProps": "credProps",
+                "prf": "prf", "hmac_secret_mc": "hmac-secret-mc"}
+        vnames = [n for n, _ in unknown_values(Harness("x", "C06", ""))]
+        if tier == Q and tag in ("mcext", "gaext"):
+            # the extension maps additionally get every real-world extra under its real key
+            combos = combos + [((i + seed) % (nent + 1), vnames.index(n)) for i, n in enumerate(REAL)]
         for pos, vi in combos:
             idx += 1
-            key = keys[(pos + vi) % len(keys)]
+            key = REAL.get(vnames[vi], keys[(pos + vi) % len(keys)])
 
             def change(t, ctx, pos=pos, vi=vi, key=key):
                 name, val = unknown_values(ctx.h)[vi]
                 ctx.h._uname = name
                 return insert_entry(t, [], min(pos, len(t.entries)), C.Text(key), val)
             var = Variation(default_present="all", intclass=0, seed=seed, present={schema.name: [f.rust for f in schema.fields if not f.required and not f.feature and not f.private]})
-            h = nested_accept("c06_%s_pos%d_v%d" % (tag, pos, vi), "C06", schema, var, change,
+            h = nested_accept("c06_%s_pos%d_%s" % (tag, pos, vnames[vi]), "C06", schema, var, change,
                               "%s with an unknown member %r inserted at position %d" % (tag, key, pos), timeout=1800)
             h.desc += ", value shape: %s" % getattr(h, "_uname", "?")
             add(h)
     # inside whole requests: descriptor in an allow list, options + extensions in MakeCredential, user in CredentialManagement
-    whole = [(0x02, "ga", {"ga": ["allow_list"]}, [3, 0], "transports", 27), (0x01, "mc", {"mc": ["options", "extensions"]}, [7], "zz", 11),
+    whole = [(0x02, "ga", {"ga": ["allow_list", "options"]}, [3, 0], "transports", 27), (0x01, "mc", {"mc": ["options", "extensions"]}, [7], "zz", 11),
              (0x01, "mc", {"mc": ["options", "extensions"]}, [6], "credBlob", 28), (0x0A, "cm", {"cm": ["sub_command_params"], "cmparams": ["user"]}, [2, 3], "zz", 13),
              (0x01, "mc", {"mc": []}, [2], "zz", 25), (0x01, "mc", {"mc": []}, [4, 0], "transports", 9)]
     for cmd, tag, pres, path, key, vi in (whole if tier == T else whole[:4]):
         def change(t, ctx, path=path, key=key, vi=vi):
             name, val = unknown_values(ctx.h)[vi]
-            return insert_entry(t, path, 1, C.Text(key), val)
+            return insert_entry(t, path, len(get(t, path).entries), C.Text(key), val)   # last position: what follows must survive
         var = Variation(default_present="none", present=pres, intclass=0, seed=seed)
         add(accept_harness("c06_req_%s_%s_v%d" % (tag, "_".join(str(x) for x in path), vi), "C06", cmd, var, change,
                            "%s request with an unknown member %r inside the map at %s" % (tag, key, path), via="request", timeout=2400))
@@ -1224,6 +1231,13 @@ def plan_c04(tier, seed):
         # the complete template with ill-formed UTF-8 allowed
         add(status_harness("c04_%s_full_anytext" % tag, "C04", cmd, Variation(default_present="all", intclass=0, seed=seed, text="ascii"),
                            (lambda t: t), None, "%s full template, all contents symbolic" % variant, timeout=2400), configs="all")
+    # (2b) names straddling the 64-byte cut with a fully symbolic window: the unsafe unwrap_unchecked in
+    # floor_char_boundary and the slice in truncate must never fault
+    for L, ws, wl in (((65, 60, 6), (70, 60, 6)) if tier == Q else ((65, 60, 8), (66, 60, 8), (67, 60, 8), (68, 60, 8), (70, 60, 8), (300, 60, 8))):
+        hh = _c13_entity("c04_name_len%d_w%d_%d" % (L, ws, wl), "user", "name", L, ws, wl,
+                         "user name of %d bytes, bytes %d..%d fully symbolic: no panic / no unsafe precondition violated while truncating" % (L, ws, ws + wl))
+        hh.prop = "C04"
+        add(hh, configs="first")
     # (4) growth far beyond capacity
     GROW = [(spec.USER, "user.name", 300, {"user": ["name"]}), (spec.USER, "user.icon", 300, {"user": ["icon"]}), (spec.RP, "rp.id", 257, {"rp": []}),
             (spec.RP, "rp.icon", 300, {"rp": ["icon"]}), (spec.PARAMS, "params.key_type", 33, {}), (spec.USER, "user.id", 300, {"user": []})]
